@@ -1,9 +1,9 @@
-STREAMS = ["c02"]
+STREAMS = ["c02", "c02proc"]
 RULE = ("real security.CheckPAACookie with real go-jose against a scriptable OpenID provider: (a) 26 token variants (each claim "
         "changed or missing, exp/nbf/iat around the leeway, other key, HS384/HS512/RS256/none, hand-built, JSON-serialised, "
         "nested) x 5 IdP conditions (valid, unknown, revoked, 500, connection dropped); (b) tokens minted by GeneratePAAToken "
         "(expiry = issue time + 300 s checked) presented back; (c) single-character substitutions, single-bit flips, truncations "
-        "and segment swaps of a valid token; (d) empty, blanks and random strings / base64 triples. Each string is mapped to its "
+        "and segment swaps of a valid token; (d) empty, blanks and random strings / base64 triples; (e) histories: a cookie and a freshly signed one with the same access token presented while the provider honours the access token, after it stopped (revoked, error, dropped, unknown) and after it resumed; thorough: a cookie presented again 66 s after it expired while the process is running; (f) the packet loop: 3 token configurations x 6 handshake capability values x cookie present/absent x cookie accepted/refused through the real Processor.Process. Each string is mapped to its "
         "symbolic term by an independent decoder (own base64/JSON/HMAC). distinct = distinct token string; non-trivial = the "
         "string has three dot-separated segments")
 MODELLED = ("CheckPAACookie/GeneratePAAToken as symbolic terms (Model/Token.v): go-jose's parser, HMAC-SHA256 and the JSON "
@@ -14,6 +14,8 @@ ASSUMPTIONS = ["unforgeability of HMAC-SHA256 (Dolev-Yao: symbolic terms)",
 
 
 def nontrivial(c):
+    if c.kind == "process":
+        return True
     try:
         return bytes.fromhex(c.fields[3] if c.fields[3] != "-" else "").count(b".") == 2
     except ValueError:
